@@ -193,15 +193,21 @@ def gen_case(rnd):
         pattern, used, feats = gen_pattern(rnd)
     pool = sorted(used | set(rnd.sample(ATTR_NAMES, rnd.randint(0, 2))))
     msgs = [gen_message(rnd, pool) for _ in range(rnd.randint(1, 3))]
-    return {"pattern": pattern, "msgs": msgs, "feats": sorted(feats), "hostile": hostile}
+    if not hostile and rnd.random() < 0.25:
+        # literal white space at the very beginning / end of the pattern is literal text like any other
+        pattern = rnd.choice(["", " ", "  ", "\t", "\u00a0"]) + pattern + rnd.choice(["", " ", "\n", " \n", "\u3000"])
+    return {"pattern": pattern, "msgs": msgs, "feats": sorted(feats), "hostile": hostile, "fluent": rnd.random() < 0.25}
 
 
 def case_line(i, c):
-    return "P %s %s %d %s" % (i, hexs(c["pattern"]), len(c["msgs"]), " ".join(enc_msg(m) for m in c["msgs"]))
+    # a share of the patterns is installed through the fluent SimplePipeline::format(pattern) instead of a PatternFormatter built
+    # directly (the keywords that entry point reserves are left to the direct path)
+    via = "PF" if c.get("fluent") and c["pattern"] not in ("default", "qt", "pretty") else "P"
+    return "%s %s %s %d %s" % (via, i, hexs(c["pattern"]), len(c["msgs"]), " ".join(enc_msg(m) for m in c["msgs"]))
 
 
 def ser(c):
-    out = {"pattern": c["pattern"], "feats": c["feats"], "hostile": c["hostile"], "msgs": []}
+    out = {"pattern": c["pattern"], "feats": c["feats"], "hostile": c["hostile"], "fluent": c.get("fluent", False), "msgs": []}
     for m in c["msgs"]:
         mm = dict(m)
         for k in ("file", "func", "cat"):
@@ -211,7 +217,7 @@ def ser(c):
 
 
 def deser(d):
-    c = {"pattern": d["pattern"], "feats": d["feats"], "hostile": d["hostile"], "msgs": []}
+    c = {"pattern": d["pattern"], "feats": d["feats"], "hostile": d["hostile"], "fluent": d.get("fluent", False), "msgs": []}
     for m in d["msgs"]:
         mm = dict(m)
         for k in ("file", "func", "cat"):
@@ -243,7 +249,7 @@ def run(ctx):
     # process/boot time stream (shape + monotonicity)
     stream_msg = {"type": 0, "line": 1, "file": b"f.cpp", "func": b"void f()", "cat": b"c", "text": "x", "attrs": []}
     lines.append("P stream %s 50 %s" % (hexs("%{time process}|%{time boot}"), " ".join(enc_msg(stream_msg) for _ in range(50))))
-    results, crashes = fmtdrv.run_cases(ctx, "san", lines, chunk=500, lags=fmtdrv.LAGS)
+    results, crashes = fmtdrv.run_cases(ctx, "san", lines, chunk=500, lags=fmtdrv.LAGS, tzs=fmtdrv.TZS)
     crashed = set()
     for cid, line, kind, err in crashes:
         crashed.add(cid)
@@ -263,6 +269,7 @@ def run(ctx):
             mm = dict(m)
             mm["attrs"] = dict(m["attrs"])
             mm["time_ms"], mm["thread_id"], mm["steady_ms"] = int(toks[4 * j + 1]), int(toks[4 * j + 2]), int(toks[4 * j + 3])
+            mm["tz"] = fmtdrv.tz_of_case(i, 500, fmtdrv.TZS) if not ctx.replay else "UTC"
             acc, reason = ref.accept_set(c["pattern"], mm)
             if acc is None:
                 corner += 1
@@ -320,7 +327,7 @@ def run(ctx):
         "cases_with_accept_set_gt1": accept_multi,
         "patterns": len(cases),
     }
-    return ctx.finish(cov, ["TZ=UTC", "reference written from docs/api/formatters.md; accept-sets: missing non-optional attribute "
+    return ctx.finish(cov, ["process time zone cycles through UTC and POSIX TZ strings incl. DST rules (local time computed by the C library via Python's time module); virtual dates stay before 2035", "reference written from docs/api/formatters.md; accept-sets: missing non-optional attribute "
                             "(echo or empty), %{time} with/without ms, width/truncation in UTF-16 units or code points, "
                             "remove-before count exceeding the output (nothing or everything removed)"],
                       min_evals=1 if ctx.replay else 1000)
